@@ -45,6 +45,20 @@ ExpNodeSig(op, r) ==
     [] op.op = "DataflowBlock" -> Fn(<<Ctrl(r.a)>>, [j \in 1..Len(r.rows) |-> Ctrl(r.rows[j] \o r.c)])   \* EVERY successor gets the other outputs
     [] op.op = "Tag"           -> Fn(r.rows[op.tag + 1], <<Adt(r.rows)>>)
     [] OTHER -> Fn(<<>>, <<>>)
+(* the operation term of a custom operation: core.call [ins] [outs] f, core.call_indirect [ins] [outs], core.load_const type value,
+   core.make_adt [[variants]] [types of the tagged variant] tag   (m.opsym, m.opargs: lists as [k |-> "list", parts], literals printed) *)
+L(row) == [k |-> "list", parts |-> row]
+Wild   == [k |-> "ty", s |-> "Wildcard()"]
+OpTermOK(op, r, m) ==
+  CASE op.op = "Call" -> /\ m.opsym = "core.call" /\ Len(m.opargs) = 3 /\ m.opargs[1] = L(r.a) /\ m.opargs[2] = L(r.b)
+                         /\ m.ncalleeargs = Len(op.type_args)                              \* the symbol is applied to the call's type arguments
+    [] op.op = "CallIndirect" -> m.opsym = "core.call_indirect" /\ m.opargs = <<L(r.a), L(r.b)>>
+    [] op.op = "LoadConstant" -> m.opsym = "core.load_const" /\ Len(m.opargs) = 2 /\ m.opargs[1] \in {r.b[1], Wild}
+    [] op.op = "LoadFunction" -> /\ m.opsym = "core.load_const" /\ Len(m.opargs) = 2 /\ m.opargs[1] \in {Fn(r.a, r.b), Wild}
+                                 /\ m.ncalleeargs = Len(op.type_args)
+    [] op.op = "Tag" -> /\ m.opsym = "core.make_adt"
+                        /\ m.opargs = <<L([j \in 1..Len(r.rows) |-> L(r.rows[j])]), L(r.rows[op.tag + 1]), [k |-> "lit", s |-> ToString(op.tag)]>>
+    [] OTHER -> TRUE
 (* the signature's arity is the number of listed ports (the property's "value ports of its signature") *)
 SigArityOK(m) == m.sig.k = "fn" /\ Len(m.sig.ins) = Len(m.inputs) /\ Len(m.sig.outs) = Len(m.outputs)
 
@@ -61,7 +75,7 @@ NodeOK(d, n, m) ==
         /\ ToSetM(m.nonlinear) = {k - 1 : k \in {j \in 1..Len(op.signature.params) :
                                                   op.signature.params[j].tp = "Type" /\ op.signature.params[j].b = "C"}}
         /\ Len(m.nonlinear) = Cardinality(ToSetM(m.nonlinear)))
-  /\ (HasSigLaw(op) => m.sig = ExpNodeSig(op, d.rows[n + 1]) /\ SigArityOK(m))                  \* the exported signature term
+  /\ (HasSigLaw(op) => m.sig = ExpNodeSig(op, d.rows[n + 1]) /\ SigArityOK(m) /\ OpTermOK(op, d.rows[n + 1], m))                  \* the exported signature term
   /\ (op.op \in {"FuncDefn", "FuncDecl"} => m.symsig = Fn(d.rows[n + 1].a, d.rows[n + 1].b))     \* the symbol's type is the body
   /\ CASE HasInner(op) -> Len(m.regions) = 1 /\ DfgRegionOK(d, n, m.regions[1])
        [] op.op = "Conditional" -> /\ Len(m.regions) = Len(Children(d, n))
